@@ -726,7 +726,7 @@ func (c *c10) conversions(r *fw.Rec, av, bv c10Val, a, b tengo.Object) {
 		return exp{skip: true}
 	}
 	targets := []struct {
-		name       string
+		name     string
 		op1, op2 int
 	}{{"string", 8, 15}, {"int", 9, 16}, {"float", 10, 17}, {"char", 11, 18}, {"bytes", 13, 19}, {"time", 14, 20}}
 	for _, t := range targets {
